@@ -99,7 +99,19 @@ fn same_outputs(direct: &mut Cmd, nested: &mut Cmd, expect_effects: u8, expect_e
 ///   2 a stream: first item -> event, parks again; second item -> event + effect, finishes
 ///   3 resolved, and the task wakes itself once more before finishing (two polls in one settle)
 /// DEPTH = number of hosting layers around the command (1 or 2).
-fn hosting_case<const S: u8, const DEPTH: u8>() {
+/// the shell's wake-up of a parked task: W = 0 by value (`wake`), W = 1 by reference, then the
+/// handle is released (`wake_by_ref` + drop) — the two are equivalent by `Waker`'s contract
+fn shell_wake<const W: u8>(slot: &Slot, what: &str) {
+    let w = slot.take().expect(what);
+    if W == 0 {
+        w.wake();
+    } else {
+        w.wake_by_ref();
+        drop(w);
+    }
+}
+
+fn hosting_case<const S: u8, const DEPTH: u8, const W: u8>() {
     let (pd, pn) = (Arc::new(Probe::default()), Arc::new(Probe::default()));
     let (ph1, ph2) = (Arc::new(Probe::default()), Arc::new(Probe::default()));
     let (sd, sn) = (Slot::new(), Slot::new());
@@ -130,8 +142,8 @@ fn hosting_case<const S: u8, const DEPTH: u8>() {
     assert!(hooks::live_tasks(&nested) == 1 && !ph1.dropped(), "the hosting task is kept while the nested command can still be woken");
 
     // the shell acts on the request: resolve / drop / first stream item
-    sd.take().expect("direct parked").wake();
-    sn.take().expect("nested parked").wake();
+    shell_wake::<W>(&sd, "direct parked");
+    shell_wake::<W>(&sn, "nested parked");
     hooks::run_until_settled(&mut direct);
     hooks::run_until_settled(&mut nested); // ONE call of the outermost host
     match S {
@@ -147,8 +159,8 @@ fn hosting_case<const S: u8, const DEPTH: u8>() {
             same_outputs(&mut direct, &mut nested, 0, 1);
             assert!(!direct.is_done() && !nested.is_done(), "subscription alive under both hosts");
             assert!(!ph1.dropped() && hooks::live_tasks(&nested) == 1, "hosting task not torn down between items");
-            sd.take().expect("direct parked again").wake();
-            sn.take().expect("nested parked again").wake();
+            shell_wake::<W>(&sd, "direct parked again");
+            shell_wake::<W>(&sn, "nested parked again");
             hooks::run_until_settled(&mut direct);
             hooks::run_until_settled(&mut nested);
             same_outputs(&mut direct, &mut nested, 1, 1);
@@ -167,14 +179,21 @@ fn hosting_case<const S: u8, const DEPTH: u8>() {
     nd_cover!(S == 2, "nested stream, two items");
     nd_cover!(S == 3, "nested task wakes itself");
     nd_cover!(DEPTH == 2, "two hosting layers");
+    nd_cover!(W == 1, "shell wakes by reference");
     std::mem::forget((direct, nested, pd, pn, ph1, ph2, sd, sn));
 }
 
 fn hosting_depth1<const S: u8>() {
-    hosting_case::<S, 1>();
+    hosting_case::<S, 1, 0>();
 }
 fn hosting_depth2<const S: u8>() {
-    hosting_case::<S, 2>();
+    hosting_case::<S, 2, 0>();
+}
+fn hosting_depth1_byref<const S: u8>() {
+    hosting_case::<S, 1, 1>();
+}
+fn hosting_depth2_byref<const S: u8>() {
+    hosting_case::<S, 2, 1>();
 }
 
 #[cfg_attr(kani, kani::proof, kani::unwind(7))]
@@ -203,4 +222,19 @@ pub fn c05_hosting_deep_a() {
 pub fn c05_hosting_deep_b() {
     let s = nd::any_u8();
     dispatch!(s, hosting_depth2, 2 3);
+}
+
+/// the shell's wake-up arrives through `wake_by_ref` (then the handle is released) instead of `wake`
+#[cfg_attr(kani, kani::proof, kani::unwind(7))]
+#[cfg_attr(kani, kani::stub(core::mem::MaybeUninit::write, crate::common::maybe_uninit_write))]
+pub fn c05_hosting_byref() {
+    let s = nd::any_u8();
+    dispatch!(s, hosting_depth1_byref, 0 2);
+}
+
+#[cfg_attr(kani, kani::proof, kani::unwind(7))]
+#[cfg_attr(kani, kani::stub(core::mem::MaybeUninit::write, crate::common::maybe_uninit_write))]
+pub fn c05_hosting_deep_byref() {
+    let s = nd::any_u8();
+    dispatch!(s, hosting_depth2_byref, 0 2);
 }
